@@ -39,9 +39,12 @@ class LoopState(object):
         self.carried = carried
         self.unchanged = None  # set of names believed unchanged (None = not initialised)
         self.templates = {}  # name -> list of descriptors
+        self.joint = []  # joint templates: dicts name -> descriptor seen together at the end of an iteration
+        self.entry_joint = []  # ... and at loop entry (covered by the first iteration when split_first)
         self.changed = False
         self.user_invariants = None  # callable(env, entry) -> list[(label, cond)]
         self.user_havoc = None  # callable(env, entry, loop) -> dict of replacements
+        self.user_define = {}  # name -> callable(havocked_so_far, entry, loop) -> value: the invariant *defines* the name
         self.required_names = ()
         self.split_first = False  # fork the arbitrary iteration into {first iteration from the entry state, later one}
         self.iterations_seen = 0
@@ -63,6 +66,10 @@ def any_changed():
     for s in REGISTRY.values():
         s.changed = False
     return ch
+
+
+import re as _re
+_FRESH_RE = _re.compile(r"!\d+")
 
 
 def _snapshot(v, lid, name, state):
@@ -92,8 +99,10 @@ def describe(v):
     if isinstance(v, GhostList):
         return ("glist",)
     if isinstance(v, Tensor):
-        return ("tensor", v.kind if v.kind != "sc" or not getattr(v, "_is_zeros", False) else "sc",
-                tuple(repr(d) for d in v._shape), v.vaxes, v.dtype.name, bool(v.requires_grad))
+        shp = tuple(_FRESH_RE.sub("", repr(d)) for d in v._shape)   # fresh-name counters differ between paths
+        if v.kind == "sc" and getattr(v, "_is_zeros", False) and v.v.is_zero():
+            return ("tensor", "zeros", shp, (), v.dtype.name, bool(v.requires_grad))
+        return ("tensor", v.kind, shp, v.vaxes, v.dtype.name, bool(v.requires_grad))
     if isinstance(v, (bool, SBool)):
         return ("bool",)
     if isinstance(v, (int, SInt)):
@@ -103,6 +112,17 @@ def describe(v):
     if isinstance(v, tuple) and type(v) is tuple:
         return ("tuple", tuple(describe(e) for e in v))
     return ("obj", id(v))
+
+
+def _subsume(descs):
+    """an all-zeros tensor is a special case of an arbitrary abstract vector / fibre scalar of the same shape"""
+    out = []
+    for d in descs:
+        if d[0] == "tensor" and d[1] == "zeros" and any(
+                e[0] == "tensor" and e[1] in ("vec", "sc") and e[2] == d[2] and e[4] == d[4] for e in descs):
+            continue
+        out.append(d)
+    return out
 
 
 def _compatible(d1, d2):
@@ -135,7 +155,9 @@ def fresh_like(desc, exemplar, name):
         kind = desc[1]
         ex = exemplar
         nm = c.fresh(name)
-        if kind == "vec":
+        if kind == "zeros":
+            t = st.zeros(ex._shape, dtype=ex.dtype)
+        elif kind == "vec":
             t = st.Tensor("vec", Vec.base(nm), ex._shape, ex.dtype, ex.vaxes)
         elif kind == "sc":
             cplx = ex.dtype.is_complex
@@ -213,11 +235,54 @@ class Loop(object):
             if ex is None:
                 st.exemplars = ex = {}
             ex.setdefault((n, d), env[n])
+        jd0 = {n: describe(env[n]) for n in bound}
+        if jd0 not in st.entry_joint:
+            st.entry_joint.append(jd0)
         self._havocked = {}
         self._first = False
         self._target = None
         self._entry_checked = False
         self._arb = None
+        self._joint_k = None
+
+    def _add_joint(self, jd):
+        st = self.state
+        if jd not in st.joint:
+            st.joint.append(jd)
+            return True
+        return False
+
+    def _joint_templates(self):
+        """distinct joint templates projected on the names that change, zeros subsumed by general values"""
+        st = self.state
+        if getattr(self, "_jt_cache", None) is not None:
+            return self._jt_cache
+        names = [n for n in st.carried if n not in st.unchanged]
+        proj = []
+        for jd in (st.joint if st.split_first else st.entry_joint + st.joint):
+            pj = {n: jd[n] for n in names if n in jd}
+            if pj not in proj:
+                proj.append(pj)
+
+        def covers(big, small):
+            if set(big) != set(small):
+                return False
+            for n in small:
+                a, b = small[n], big[n]
+                if a == b:
+                    continue
+                if a[0] == "tensor" and a[1] == "zeros" and b[0] == "tensor" and b[1] in ("vec", "sc") \
+                        and a[2] == b[2] and a[4] == b[4]:
+                    continue
+                return False
+            return True
+        out = []
+        for pj in proj:
+            if any(o is not pj and covers(o, pj) and not (covers(pj, o) and proj.index(o) > proj.index(pj)) for o in proj):
+                continue
+            out.append(pj)
+        self._jt_cache = out
+        return out
 
     def _env(self, env, phase):
         e = dict(env)
@@ -274,9 +339,21 @@ class Loop(object):
             if name in st.mutated:
                 v = _snapshot(v, self.lid, name, st)
         else:
-            descs = st.templates[name]
-            k = ctx().choose(len(descs), "tmpl_%s" % name) if len(descs) > 1 else 0
-            d = descs[k]
+            if not self._first and name in st.user_define:
+                v = st.user_define[name](dict(self._havocked), self.entry, self)
+                self._havocked[name] = v
+                return v
+            d = None
+            if not self._first:
+                jts = self._joint_templates()
+                if self._joint_k is None:
+                    self._joint_k = ctx().choose(len(jts), "tmpl") if len(jts) > 1 else 0
+                if jts:
+                    d = jts[self._joint_k].get(name)
+            if d is None:
+                descs = _subsume(st.templates[name])
+                k = ctx().choose(len(descs), "tmpl_%s" % name) if len(descs) > 1 and not self._first else 0
+                d = descs[k]
             if self._first:
                 v = self.entry[name]
                 if name in st.mutated:
@@ -365,6 +442,8 @@ class Loop(object):
                     lst.append(d)
                     st.exemplars.setdefault((n, d), new)
                     st.changed = True
+        if self._add_joint({n: describe(env[n]) for n in st.carried if n in env and n in self.entry}):
+            st.changed = True
         if st.user_invariants is not None:
             for label, cond in st.user_invariants(self._env(env, "end"), self.entry):
                 c.check("%s.inv_preserved.%s" % (self.lid, label), _cond(cond), kind="invariant")
@@ -427,6 +506,18 @@ def loop_begin(lid, env):
     st = REGISTRY.get(lid)
     if st is None:
         raise RuntimeError("loop %s not registered" % lid)
+    c = Ctx.cur
+    variant = c.ghost.get("loop_variant") if c is not None else None
+    if variant:
+        # inferred facts are kept per harness configuration (shapes / kinds differ between configurations)
+        key = "%s@%s" % (lid, variant)
+        sv = REGISTRY.get(key)
+        if sv is None:
+            sv = LoopState(lid, st.carried)
+            sv.user_invariants, sv.user_havoc, sv.user_define = st.user_invariants, st.user_havoc, st.user_define
+            sv.split_first, sv.peel_last, sv.mutated = st.split_first, st.peel_last, st.mutated
+            REGISTRY[key] = sv
+        st = sv
     return Loop(lid, env, st)
 
 
